@@ -109,14 +109,23 @@ def _judge_unit(case, im, mo):
                     dis.append('get_log_fluxes band %d (flag %d) %s: implementation %r model %r' % (j, f, name, got, float(want)))
         elif im['w'][j] != 0.0:
             dis.append('get_log_fluxes band %d (flag %d): weight %r' % (j, f, im['w'][j]))
+    # conditioning of the two-parameter regression on these bands (exact): a singular or nearly singular system is outside the quantifier
+    wq = [F(x) for x in im['w']]
+    m11 = sum(w * F(a) * F(a) for w, a in zip(wq, case['a']))
+    m22 = sum(w * F(t) * F(t) for w, t in zip(wq, case['s']))
+    m12 = sum(w * F(a) * F(t) for w, a, t in zip(wq, case['a'], case['s']))
+    det = m11 * m22 - m12 * m12
+    cond = float(m11 * m22 / det) if det > 0 else math.inf
+    if cond > 1e6:
+        tags.append('regression-singular-skipped')
     for k in range(len(case['lm'])):
         lr, osc, oav, chi = mo[1 + 4 * k: 5 + 4 * k]
-        rt = 1e-7
-        if not (close(im['p1'][k], lr[0], rt, rt) and close(im['p2'][k], lr[1], rt, rt)):
+        rt = max(1e-7, 1e-12 * cond) if cond <= 1e6 else None
+        if rt is not None and not (close(im['p1'][k], lr[0], rt, rt) and close(im['p2'][k], lr[1], rt, rt)):
             dis.append('linear_regression model %d: implementation (%r, %r) model (%r, %r)' % (k, im['p1'][k], im['p2'][k], float(lr[0]), float(lr[1])))
-        if not close(im['osc'][k], osc, 1e-9, 1e-9):
+        if m22 > 0 and not close(im['osc'][k], osc, 1e-9, 1e-9):
             dis.append('optimal_scaling(scale) model %d: %r vs %r' % (k, im['osc'][k], float(osc)))
-        if not close(im['oav'][k], oav, 1e-9, 1e-9):
+        if m11 > 0 and not close(im['oav'][k], oav, 1e-9, 1e-9):
             dis.append('optimal_scaling(av) model %d: %r vs %r' % (k, im['oav'][k], float(oav)))
         ci, cm = fitcase.canon_chi(im['chi'][k]), fitcase.canon_chi(chi)
         # skip limit near-ties
